@@ -17,9 +17,9 @@ type notAnInterface struct{}
 // be classifiable with errors.Is / errors.As.
 func H_Misuse() {
 	c := godi.NewCollection()
-	c.AddSingleton(kit.TabC[0][0])                     // *S0
-	c.AddScoped(kit.TabC[1][0], godi.Name("k1"))       // *S1 keyed
-	c.AddTransient(kit.TabC[3][0], godi.Group("g1"))   // *S3 in group
+	c.AddSingleton(kit.TabC[0][0])                   // *S0
+	c.AddScoped(kit.TabC[1][0], godi.Name("k1"))     // *S1 keyed
+	c.AddTransient(kit.TabC[3][0], godi.Group("g1")) // *S3 in group
 	var nilFunc func() *kit.S0
 	var p godi.Provider
 	var sc godi.Scope
